@@ -516,6 +516,49 @@ theorem C01_text_split_free (ctx : NSCtx) (pending : String) (pre post : List No
       canonList ctx pending (pre ++ .text false a :: .text false b :: post) :=
   canon_text_split ctx pending pre post a b
 
+/-! ### KeyInfo removal does not touch what the digest covers (when the vouching Signature is the stripped one) -/
+
+theorem removeNidList_strip (nid : Nat) (cs : List Node)
+    (h : ∀ c ∈ cs, c.isElem = true → c.tag = "Signature" → c.nid = nid) :
+    removeNidList nid (stripInFirstSignature cs) = removeNidList nid cs := by
+  induction cs with
+  | nil => simp [stripInFirstSignature]
+  | cons c rest ih =>
+    cases c with
+    | elem n s t a ccs =>
+      unfold stripInFirstSignature
+      by_cases ht : t = "Signature"
+      · have hn : n = nid := h (.elem n s t a ccs) (by simp) rfl ht
+        subst hn
+        simp only [ht, if_true]
+        simp [removeNidList, Node.isElem, Node.nid]
+      · simp only [ht, if_false]
+        have := ih (fun c hc => h c (by simp [hc]))
+        simp only [removeNidList, this]
+    | text c s =>
+      unfold stripInFirstSignature
+      have := ih (fun c hc => h c (by simp [hc]))
+      simp only [removeNidList, this]
+    | other k s =>
+      unfold stripInFirstSignature
+      have := ih (fun c hc => h c (by simp [hc]))
+      simp only [removeNidList, this]
+
+/-- when every Signature-named child of `el` is the Signature `nid` (the usual case: one Signature child),
+    what the digest is computed over is `el` without that Signature, KeyInfo removal or not -/
+theorem removeNid_stripKeyInfo (nid : Nat) (el : Node)
+    (h : ∀ c ∈ el.children, c.isElem = true → c.tag = "Signature" → c.nid = nid) :
+    removeNid nid (stripKeyInfo el).1 = removeNid nid el := by
+  unfold stripKeyInfo
+  split
+  · cases el with
+    | elem n s t a cs =>
+      simp only [removeNid]
+      rw [removeNidList_strip nid cs h]
+    | text c s => rfl
+    | other k s => rfl
+  · rfl
+
 /-! ### obligations on the current source (regenerated facts): the structure the model assumes -/
 
 /-- only descriptors with use "" or "signing" feed the signing roots (`metadataRoots`) -/
